@@ -290,3 +290,98 @@ def const_call_env(fx, fn):
             env[S(e, al)] = next(iter(vs))
             env[S(e)] = next(iter(vs))
     return env
+
+
+# ---------------------------------------------------------------- finite ordering domain
+def order_paths(fn, st0, limit=4000):
+    """Abstract interpretation of a function whose values are only copied and compared (iterators / indices clipped against
+    bounds): a state maps each name (canonical string) to its rank in one total preorder of the inputs. Declarations with an
+    initialiser, `=` assignments (built-in and class-type operator=, chains included) copy ranks; branch conditions made of
+    comparisons, !, && and || are decided from the ranks; a condition that mentions anything else is followed both ways.
+    Returns [(ret event, state, undecided conditions on the path)] for every path from the entry to a return."""
+    CMP = {"<": lambda a, b: a < b, "<=": lambda a, b: a <= b, ">": lambda a, b: a > b, ">=": lambda a, b: a >= b,
+           "==": lambda a, b: a == b, "!=": lambda a, b: a != b}
+
+    def ev(t, st):
+        if not isinstance(t, dict):
+            return None
+        k = t.get("k")
+        if k in ("cast", "defarg", "paren"):
+            return ev(t.get("e"), st)
+        if k == "ctor" and len(t.get("a") or []) == 1:
+            return ev(t["a"][0], st)
+        if k == "int":
+            return None                      # a literal has no place in the ordering
+        if k in ("ref", "mem", "idx"):
+            return st.get(S(t))
+        if k == "un" and t.get("op") == "!":
+            v = ev(t.get("e"), st)
+            return None if v is None else (not v)
+        if k == "bin":
+            op = t.get("op")
+            if op in CMP:
+                a, b = ev(t["l"], st), ev(t["r"], st)
+                return None if a is None or b is None or isinstance(a, bool) or isinstance(b, bool) else CMP[op](a, b)
+            if op in ("&&", "||"):
+                a, b = ev(t["l"], st), ev(t["r"], st)
+                if op == "&&":
+                    return False if a is False or b is False else (True if a is True and b is True else None)
+                return True if a is True or b is True else (False if a is False and b is False else None)
+            if op == "=":
+                return ev(t["r"], st)
+            return None
+        if k == "call" and t.get("op") in CMP:
+            ar = t.get("a") or []
+            ops = ar if len(ar) == 2 else ([t.get("recv")] + ar if t.get("recv") is not None and len(ar) == 1 else None)
+            if not ops:
+                return None
+            a, b = ev(ops[0], st), ev(ops[1], st)
+            return None if a is None or b is None or isinstance(a, bool) or isinstance(b, bool) else CMP[t["op"]](a, b)
+        if k == "call" and t.get("op") == "=" and t.get("a"):
+            return ev(t["a"][-1], st)
+        return None
+
+    out = []
+    todo = [(fn.f["entry"], dict(st0), ())]
+    steps = 0
+    while todo:
+        bid, st, und = todo.pop()
+        steps += 1
+        if steps > limit:
+            return None
+        b = fn.blocks.get(bid)
+        if b is None:
+            continue
+        done = False
+        for e in b.get("ev", []):
+            k = e.get("k")
+            if k == "decl" and "init" in e:
+                v = ev(e["init"], st)
+                st[e["n"]] = v
+            elif k == "assign" and e.get("op") == "=":
+                st[S(e.get("lhs"))] = ev(e.get("rhs"), st)
+            elif k == "call" and e.get("op") == "=" and e.get("recv") is not None and e.get("a"):
+                st[S(e["recv"])] = ev(e["a"][-1], st)
+            elif k == "ret":
+                out.append((e, dict(st), und))
+                done = True
+                break
+        if done:
+            continue
+        succ = [s for s in b.get("succ", [])]
+        if len(succ) == 2:
+            c = effective_cond(b)
+            v = ev(c, st) if c is not None else None
+            if v is True or v is False:
+                nxt = succ[0] if v else succ[1]
+                if nxt is not None:
+                    todo.append((nxt, st, und))
+            else:
+                for i, nxt in enumerate(succ):
+                    if nxt is not None:
+                        todo.append((nxt, dict(st), und + ((S(c) if c is not None else "?", i == 0),)))
+        else:
+            for nxt in succ:
+                if nxt is not None:
+                    todo.append((nxt, st, und))
+    return out
